@@ -37,6 +37,58 @@ pub enum GOp {
 pub struct GraphCase {
     pub lib: LibVersions,
     pub ops: Vec<GOp>,
+    /// the texts are arbitrary bytes (byte-level fuzz target): the walk-order comparison against the
+    /// scanner, which is only defined on the generator's grammar, is left out
+    #[serde(default)]
+    pub raw: bool,
+}
+
+/// Byte-level case: the fuzzer's bytes are the notes themselves. Byte 0: flags (refs_extension,
+/// CRLF), byte 1: number of operations (1-8), then two bytes per operation; the rest is cut at 0xFF
+/// bytes (never part of UTF-8) into up to six texts, three versions each for the notes `a` and `d/b`.
+pub fn raw_case(data: &[u8]) -> GraphCase {
+    let flag = data.first().copied().unwrap_or(0);
+    let n_ops = 1 + (data.get(1).copied().unwrap_or(0) % 8) as usize;
+    let mut ops = vec![];
+    for i in 0..n_ops {
+        let a = data.get(2 + 2 * i).copied().unwrap_or(i as u8);
+        let b = data.get(3 + 2 * i).copied().unwrap_or(0);
+        let (k, v) = (b & 1, (b >> 1) % 3);
+        ops.push(match a % 10 {
+            0..=4 => GOp::Update(k, v),
+            5 => GOp::Insert(b >> 4, k, v),
+            6 => GOp::Clear(k),
+            7 => GOp::Resave(k),
+            8 => GOp::Patch(k),
+            _ => GOp::AddKey(k),
+        });
+    }
+    let body = data.get(2 + 2 * n_ops..).unwrap_or(&[]);
+    let mut texts: Vec<String> = body
+        .splitn(6, |b| *b == 0xFF)
+        .map(|seg| {
+            let t = String::from_utf8_lossy(seg).to_string();
+            if flag & 2 != 0 {
+                t.replace('\n', "\r\n")
+            } else {
+                t
+            }
+        })
+        .collect();
+    let have = texts.len().max(1);
+    if texts.is_empty() {
+        texts.push(String::new());
+    }
+    for i in have..6 {
+        let t = texts[i % have].clone();
+        texts.push(t);
+    }
+    let b = texts.split_off(3);
+    GraphCase {
+        lib: LibVersions { notes: vec![("a".into(), texts), ("d/b".into(), b)], ext: if flag & 1 != 0 { ".md".into() } else { String::new() } },
+        ops,
+        raw: true,
+    }
 }
 
 pub const NEW_KEYS: &[&str] = &["zz-new", "d/zz-new"];
@@ -212,7 +264,7 @@ impl Property for C20 {
     }
     fn strategy(&self, features: &Features, _tier: Tier) -> BoxedStrategy<GraphCase> {
         (library::library_versions(features, 5, 5, 3), vec(gop(), 1..10))
-            .prop_map(|(lib, ops)| GraphCase { lib, ops })
+            .prop_map(|(lib, ops)| GraphCase { lib, ops, raw: false })
             .boxed()
     }
     fn check(&self, case: &GraphCase, stats: &mut Stats) -> Verdict {
@@ -228,7 +280,8 @@ impl Property for C20 {
         let mut model: Lib = case.lib.notes.iter().map(|(k, v)| (k.clone(), v[0].clone())).collect();
         let mut g = Graph::import(&api::to_state(&model), api::opts(&case.lib.ext));
         let fail = |step: String, e: (String, String), ops: &Vec<GOp>| Verdict::fail(e.0, format!("{}: {}\nhistory: {:?}", step, e.1, ops));
-        let mut prev = match check_forest(&g, &model, true) {
+        let order = !case.raw;
+        let mut prev = match check_forest(&g, &model, order) {
             Ok(p) => p,
             Err(e) => return fail("after import".into(), e, &case.ops),
         };
@@ -289,7 +342,7 @@ impl Property for C20 {
             if g.nodes().len() < len_before {
                 return Verdict::fail("c20|ids-shrank", format!("step {} ({:?}): arena went from {} to {} nodes\nhistory: {:?}", n, op, len_before, g.nodes().len(), case.ops));
             }
-            let now = match check_forest(&g, &model, true) {
+            let now = match check_forest(&g, &model, order) {
                 Ok(p) => p,
                 Err(e) => return fail(format!("after step {} ({:?})", n, op), e, &case.ops),
             };
